@@ -72,6 +72,10 @@ def predict_tool(ctx, binp, cli, wd):
         # (dash-like characters become the Katakana prolonged sound mark)
         for ws in (["T"], ["O"], ["T", "O"], ["K", "H"]):
             runs.append(("eval", fl, ws, (["dash", "fullw", "half"], True)))
+        # filters that JOIN tokens the model split: the glued token is a different token (here: one without a tag model), so tags
+        # and tag-score blocks must describe the tokens that exist AFTER the filters
+        for ws in (["H"], ["R", "H"]):
+            runs.append(("eval", fl, ws, (["plain", "long", "multi"], True)))
             extra = streams if not q else [st for k, st in enumerate(streams) if (k + len(runs)) % 2 == 0]
             for st in extra:
                 ws = rnd.sample(["D", "R", "H", "T", "K", "O", "G"], rnd.randint(0, 2))
